@@ -849,3 +849,40 @@ def sp_iscore(ex, e, st):
 
 
 SPEC["iscore"] = sp_iscore
+
+
+def _edit(ex, e, st):
+    s2, s1 = _seq(ex.ev(e.args[0], st)), _seq(ex.ev(e.args[1], st))
+    loc = _int(ex.ev(e.args[2], st))
+    return s2, s1, loc
+
+
+def sp_is_subst(ex, e, st):
+    """is_subst(s2, s, p, c): s2 is s with the character at position p replaced by c."""
+    s2, s1, loc = _edit(ex, e, st)
+    c = _seq(ex.ev(e.args[3], st))
+    q = z3.Int("q#sub")
+    return z3.And(c.n == 1, s2.n == s1.n, 0 <= loc, loc < s1.n, s2.at(loc) == c.at(0),
+                  z3.ForAll([q], z3.Implies(z3.And(0 <= q, q < s1.n, q != loc), s2.at(q) == s1.at(q))))
+
+
+def sp_is_ins(ex, e, st):
+    """is_ins(s2, s, p, c): s2 is s with c inserted before position p."""
+    s2, s1, loc = _edit(ex, e, st)
+    c = _seq(ex.ev(e.args[3], st))
+    q = z3.Int("q#ins")
+    return z3.And(c.n == 1, s2.n == s1.n + 1, 0 <= loc, loc <= s1.n, s2.at(loc) == c.at(0),
+                  z3.ForAll([q], z3.Implies(z3.And(0 <= q, q < s1.n), z3.If(q < loc, s2.at(q) == s1.at(q), s2.at(q + 1) == s1.at(q)))))
+
+
+def sp_is_del(ex, e, st):
+    """is_del(s2, s, p): s2 is s without the character at position p."""
+    s2, s1, loc = _edit(ex, e, st)
+    q = z3.Int("q#del")
+    return z3.And(s2.n == s1.n - 1, 0 <= loc, loc < s1.n,
+                  z3.ForAll([q], z3.Implies(z3.And(0 <= q, q < s2.n), z3.If(q < loc, s2.at(q) == s1.at(q), s2.at(q) == s1.at(q + 1)))))
+
+
+SPEC["is_subst"] = sp_is_subst
+SPEC["is_ins"] = sp_is_ins
+SPEC["is_del"] = sp_is_del
